@@ -276,14 +276,23 @@ def check_families(ctx, r, rid="R5"):
             return C("None")
         return C("Some", CF("PartialPathMatch", remaining=S("/" + rest if rest else ""), matched=S("/" + first)))
 
+    inner_route = {"t": about}
+
     def inner_match(a):
         path = a[1][1]
-        segs_ = [x for x in about[current()] if x]
+        segs_ = [x for x in inner_route["t"][current()] if x]
         p = [x for x in path.split("/") if x]
-        if p == segs_:
+        if len(p) == len(segs_) and all(sg.startswith(":") or sg == x for sg, x in zip(segs_, p)):
             return T(C("Some", T(A("route-id"), A("inner-match:" + current()))), S(""))
         return T(C("None"), S(path))
-    for url, want_loc in [("/fr/a-propos", "fr"), ("/de/ueber", "de"), ("/about", None), ("/en/about", "en"), ("/fr/about", False), ("/a-propos", False), ("/french/a-propos", False), ("/frites", False), ("/de/a-propos", False)]:
+    # a route that starts with a parameter: `/fr/a-propos` passes the `fr` prefix test, fails inside the fr family (one segment short) and
+    # must then be tried against the unprefixed family with the *default* locale's words (where `a-propos` is not `about`)
+    section = {"en": ["", ":section", "about"], "fr": ["", ":section", "a-propos"], "de": ["", ":section", "ueber"]}
+    cases = [(about, u, w) for u, w in [("/fr/a-propos", "fr"), ("/de/ueber", "de"), ("/about", None), ("/en/about", "en"), ("/fr/about", False), ("/a-propos", False), ("/french/a-propos", False), ("/frites", False), ("/de/a-propos", False),
+                                         ("/FR/a-propos", False), ("/Fr/a-propos", False), ("/EN/about", False)]]
+    cases += [(section, u, w) for u, w in [("/fr/x/a-propos", "fr"), ("/x/about", None), ("/en/x/about", "en"), ("/fr/a-propos", False), ("/de/ueber", False), ("/x/a-propos", False), ("/fr/about", None), ("/de/x/a-propos", False)]]
+    for table_, url, want_loc in cases:
+        inner_route["t"] = table_
         ev = mk()
         ev.builtins.update({"test": static_test, "remaining": lambda rv, a: absint.fields_of(rv)["remaining"], "matched": lambda rv, a: absint.fields_of(rv)["matched"]})
         ev.path_builtins["MatchNestedRoutes::match_nested"] = inner_match
@@ -303,6 +312,33 @@ def check_families(ctx, r, rid="R5"):
                 bad.setdefault("match_nested#family", "`%s` must be served by the %s family with the route's segments in that locale; match_nested returns %s" % (url, want_loc or "unprefixed (default)", absint.fmt(got)[:300]))
         if state["cur"] != C("None"):
             bad.setdefault("match_nested#reset", "after matching `%s` the route locale is left at %s" % (url, absint.fmt(state["cur"])))
+    # ---- every locale gets its family: the walks over `L::get_all()` in the three functions are complete and forward (no
+    # filtering / skipping / reordering adaptor between the list and the per-locale work), and generate_routes adds the
+    # unprefixed default family after them
+    from astlib import find_all, method_chain, show
+    SKIPPING = {"filter", "filter_map", "skip", "take", "step_by", "skip_while", "take_while", "rev", "nth", "last", "find", "position", "peekable_skip", "dedup", "chunks"}
+    gens = [f for f in ast.fns if f.file.endswith(F) and f.name == "generate_routes" and "I18nNestedRoute" in (f.impl_self or "") and f.body is not None]
+    for f in gens + fams:
+        walks = []
+        for mc in find_all(f.body, "MethodCall"):
+            base, ch = method_chain(mc)
+            if absint._flatp(show(base)).replace(" ", "") in ("L::get_all", "L::get_all()") or show(base).replace(" ", "").startswith("L::get_all"):
+                walks.append([m for m, _a, _n in ch])
+        loops = [fl for fl in find_all(f.body, "ForLoop") if show(fl["iter"]).replace(" ", "").startswith("L::get_all")]
+        longest = max(walks, key=len) if walks else None
+        if longest is None and not loops:
+            bad.setdefault("%s#all-locales" % f.name, "no walk over `L::get_all()` was found in %s" % f.name)
+        elif longest is not None and set(longest) & SKIPPING:
+            bad.setdefault("%s#all-locales" % f.name, "%s walks the locales as `L::get_all().%s`: `%s` leaves some locales (e.g. the default one, whose prefixed family `/%s/..` is then missing) without routes"
+                           % (f.name, ".".join(longest), sorted(set(longest) & SKIPPING)[0], DEFAULT))
+        else:
+            n += 1
+    if gens:
+        gt = absint._flatp(show(gens[0].body))
+        if ".chaindefault_locale_routes" not in gt.replace("(", "").replace(")", "") or "set_current_route_localeL::default" not in gt.replace("(", "").replace(")", ""):
+            bad.setdefault("generate_routes#unprefixed", "generate_routes no longer appends the unprefixed family generated under the default locale")
+    else:
+        bad.setdefault("generate_routes#missing", "I18nNestedRoute::generate_routes was not found")
     for k, msg in sorted(bad.items()):
         r.viol("%s:%s" % (rid, k), msg, file=F, line=(mn[0].line if k.startswith("match_nested") else fams[0].line))
     if not bad:
